@@ -239,6 +239,43 @@ def evaluate(case):
                                     % (nb, na, got[:5].tolist() if got.shape == (n,) else got.shape, exp[:5].tolist())))
                 elif np.any(got != 0):
                     nontriv.append("%d|%g|%s|%s|fn:%s" % (n, dt, fr, rname, ename))
+        # linearity across lazily evaluated sums: x filtered with R plus y filtered with the unit response (and with "half")
+        # must be filter_R(x) + y (+ 0.5 y) -- each summand keeps its own response
+        resp = responses(n, dt)
+        for rname, (lib, ref, maxabs, delay) in resp.items():
+            if only and only.get("response") != rname:
+                continue
+            for other in ("unit", "half"):
+                if other == rname:
+                    continue
+
+                def mk(w):
+                    def func(t, w=w):
+                        idx = np.rint((np.asarray(t, dtype=float) - t0) / dt).astype(int) + nb
+                        ok = (idx >= 0) & (idx < m)
+                        return np.where(ok, w[np.clip(idx, 0, m - 1)], 0.0)
+                    fs_ = FunctionSignal(t0 + np.arange(n) * dt, func)
+                    fs_.set_buffers(leading=nb * dt, trailing=na * dt)
+                    return fs_
+                try:
+                    a1, b1 = mk(exts["ramp"]), mk(exts["early_delta"])
+                    a1.filter_frequencies(lib, force_real=fr)
+                    b1.filter_frequencies(resp[other][0], force_real=fr)
+                    want = np.array(a1.values) + np.array(b1.values)
+                    a2, b2 = mk(exts["ramp"]), mk(exts["early_delta"])
+                    a2.filter_frequencies(lib, force_real=fr)
+                    b2.filter_frequencies(resp[other][0], force_real=fr)
+                    got = np.array((a2 + b2).values)
+                except Exception as e:
+                    from ..engine import src
+                    fails.append(_f("exception", case, rname, "function:sum", "sum of filtered FunctionSignals raised " + src.short_tb(e)))
+                    continue
+                neval += 1
+                tol = 1e-11 * max(1.0, float(np.max(np.abs(exts["ramp"])))) * max(1.0, maxabs)
+                if got.shape != want.shape or not np.max(np.abs(got - want)) <= tol:
+                    fails.append(_f("function-signal-sum", case, rname, "function:sum",
+                                    "(x filtered with %s) + (y filtered with %s) evaluates to %s..., the two summands evaluated separately "
+                                    "add up to %s..." % (rname, other, got[:5].tolist(), want[:5].tolist())))
     return {"n": neval, "nontrivial": nontriv, "fails": fails,
             "stats": {"max_err_over_tol": max_ratio},
             "sample": {"N": n, "dt": dt, "force_real": fr, "responses": list(responses(n, dt))[:5],
